@@ -309,7 +309,7 @@ def write_evidence(args, prop, tier, results, viol_runs, known_hits, other, harn
     agg["analyses"] = sum(v for k, v in agg.items() if k.startswith("analysis:"))
     agg["c03_calls"] = sum(v for k, v in agg.items() if k.startswith("c03_outcome:"))
     cases = agg.get(props.CASE_COUNTER.get(prop, ""), 0) or len(results)
-    probes = {k: agg.get(k, 0) for k in P.get("probes", [])}
+    probes = {k: (agg.get(k, 0) or faults.get(k, 0)) for k in P.get("probes", [])}
     stuck = [k for k, v in probes.items() if v == 0]
     ev = {
         "property_id": prop,
